@@ -6,6 +6,7 @@
 From Coq Require Import List String Ascii Bool Arith Permutation.
 From Spil Require Import Base.Str Base.Dict Base.Outcome Regex.Re Regex.MatchProofs Resolva.Template Resolva.Resolver
   Conf.Conf Conf.WF Sid.Query Sid.Sid Sid.TypingSpec Sid.TypingProofs Sid.SidProofs Sid.QueryStringProofs Sid.QueryProofs Sid.ReprProofs.
+From Spil Require Import Sid.NewlineLemmas Sid.NewlineProofs Sid.NewlineHits Sid.NewlineConf Sid.NewlineRefute.
 From SpilGen Require Hamlet.
 Import ListNotations.
 Local Open Scope string_scope.
@@ -29,6 +30,32 @@ Theorem C02_fields_partial : forall c Ld, load c = Some Ld -> wf_loadedb Ld = tr
   Permutation (s_fields x) d' -> sid_factory Ld (FromFields d') = Ok x.
 Proof. exact roundtrip_fields. Qed.
 Print Assumptions C02_fields_partial.
+
+(* ... in full: no guard on the string, for every configuration passing the decidable check [nl_safe] (no template with a
+   closed last placeholder comes before a template with the same keys and an open last placeholder) *)
+Theorem C02_fields : forall c Ld, load c = Some Ld -> wf_loadedb Ld = true -> nl_safe (r_tpls (l_sid Ld)) = true ->
+  forall x d', naturally_typed Ld x -> Permutation (s_fields x) d' -> sid_factory Ld (FromFields d') = Ok x.
+Proof. exact roundtrip_fields_conf. Qed.
+Print Assumptions C02_fields.
+
+(* the exact condition, for any well-formed configuration: the rebuild gives back the Sid iff the first template with its
+   keys whose reverse check (python "$": also before a final newline) passes accepts its string *)
+Theorem C02_fields_iff : forall c Ld, load c = Some Ld -> wf_loadedb Ld = true ->
+  forall x d', naturally_typed Ld x -> Permutation (s_fields x) d' ->
+  (sid_factory Ld (FromFields d') = Ok x <-> nl_ok Ld (map fst (s_fields x)) (s_string x) = true).
+Proof. exact roundtrip_fields_iff. Qed.
+Print Assumptions C02_fields_iff.
+
+(* without [nl_safe] the unguarded statement is false: a well-formed configuration (closed (ma|mb) before an open placeholder with
+   the same keys) where Sid("p/ma" ++ newline) does not rebuild from its fields *)
+Theorem C02_fields_unguarded_refuted :
+  ~ (forall x d', naturally_typed bad_loaded x -> Permutation (s_fields x) d' -> sid_factory bad_loaded (FromFields d') = Ok x).
+Proof. exact roundtrip_fields_refuted. Qed.
+Print Assumptions C02_fields_unguarded_refuted.
+
+Example C02_nl_safe_here : nl_safe (r_tpls (l_sid Hamlet.the_loaded)) = true.
+Proof. vm_compute. reflexivity. Qed.
+Print Assumptions C02_nl_safe_here.
 
 (* two typed Sids are equal exactly when type and fields are equal *)
 Theorem C02_eq_iff : forall Ld, wf_loadedb Ld = true ->
